@@ -471,6 +471,7 @@ func runC14(c *core.Ctx) {
 	m.fieldOps()
 	m.verifyHistories()
 	m.specialRelations()
+	m.privateKeysWithOtherPublicHalf()
 }
 
 func canonicalOrSelf(b []byte) []byte {
@@ -1131,11 +1132,86 @@ func (m *c14) specialRelations() {
 				R := ref.EdEncode(ref.EdMul(rn, ref.EdB))
 				m.verify(pub, R, edSignNonce(aL, rn, pub, R), "special-relation:message=R", true)
 			}
+			// made by the key holder with a small-order component: R' = rB + T with S = r + k*a for k = H(R' || A || M)
+			// (valid only under a cofactored check; crypto/ed25519 compares R byte for byte and rejects), and the same
+			// against the public key A + T (valid exactly when k*T vanishes). The verdict is crypto/ed25519's, whatever it is.
+			if mi < 6 {
+				for ti, T := range m.smallOrder {
+					if edOrder(T) == 1 {
+						continue
+					}
+					rn := new(big.Int).SetBytes(r.Bytes(31))
+					Rp := ref.EdEncode(ref.EdAdd(ref.EdMul(rn, ref.EdB), T))
+					for vi, pk := range [][]byte{pub, ref.EdEncode(ref.EdAdd(ref.EdMul(aL, ref.EdB), T))} {
+						kh := sha512.Sum512(append(append(clone(Rp), pk...), msg...))
+						k := new(big.Int).Mod(ref.EdScalarInt(kh[:]), ref.EdL)
+						S := new(big.Int).Mod(new(big.Int).Add(rn, new(big.Int).Mul(k, aL)), ref.EdL)
+						m.verify(pk, msg, append(clone(Rp), le32(S)...), fmt.Sprintf("key-holder-torsion:order-%d:R'=rB+T,key-variant-%d", edOrder(T), vi), true)
+						// and an honest R against the mixed-order key
+						if vi == 1 {
+							m.verify(pk, msg, edSignNonce(aL, rn, pk, msg), fmt.Sprintf("key-holder-torsion:order-%d:honest-R,key=A+T", edOrder(T)), true)
+						}
+					}
+					_ = ti
+				}
+				c.Class("key_holder_signatures_with_small_order_components")
+			}
 			if mi > 3 {
 				c.Class("special_string_messages")
 			}
 		}
 		c.Class("special_relation_signatures")
 		c.Distinctf("special:%d", i)
+	}
+}
+
+// privateKeysWithOtherPublicHalf: a private key is 64 bytes, seed || public key, and nothing makes a caller keep the
+// second half consistent (seed || zeros is what a hand-rolled loader produces). crypto/ed25519 takes the bytes as they
+// are; so must the fork: same signature bytes, same Public(), and the caller's 64 bytes unchanged.
+func (m *c14) privateKeysWithOtherPublicHalf() {
+	c := m.c
+	n := c.Pick(8, 300)
+	for i := 0; i < n; i++ {
+		if !c.Next() {
+			continue
+		}
+		r := c.CaseRng()
+		seed := r.Bytes(32)
+		other := ref.EdPublicFromSeed(r.Bytes(32))
+		halves := map[string][]byte{"zeros": make([]byte, 32), "ones": bytes.Repeat([]byte{0xff}, 32), "random": r.Bytes(32), "another-key": other, "the-seed-again": clone(seed), "identity": ref.EdEncode(ref.EdIdentity())}
+		for name, half := range halves {
+			priv := append(clone(seed), half...)
+			arena := append(clone(priv), bytes.Repeat([]byte{0xa5}, 32)...)
+			arg := arena[:64:64]
+			msg := r.Bytes(r.IntN(50))
+			c.Eval(1)
+			d := map[string]any{"private_key": core.Hex(priv), "public_half": name, "message": core.Hex(msg)}
+			var got []byte
+			var gotPub any
+			pan, pv, where := core.Guard(func() {
+				got = ed25519.Sign(ed25519.PrivateKey(arg), msg)
+				gotPub = ed25519.PrivateKey(arg).Public()
+			})
+			if pan {
+				c.Violation("Sign:panic:other-public-half:"+where, "Sign panicked on a private key whose second half is not its public key: "+pv, d)
+				continue
+			}
+			want := stded.Sign(stded.PrivateKey(clone(priv)), msg)
+			if !bytes.Equal(got, want) {
+				d["got"], d["want"] = core.Hex(got), core.Hex(want)
+				c.Violation("Sign:differs:other-public-half", "Sign differs from crypto/ed25519 for a private key whose second half is not its public key ("+name+")", d)
+				continue
+			}
+			if !bytes.Equal(arena[:64], priv) || !bytes.Equal(arena[64:], bytes.Repeat([]byte{0xa5}, 32)) {
+				d["now"] = core.Hex(arena)
+				c.Violation("Sign:wrote-private-key", "Sign changed the caller's private key bytes ("+name+")", d)
+				continue
+			}
+			if pk, ok := gotPub.(ed25519.PublicKey); !ok || !bytes.Equal(pk, half) {
+				c.Violation("Public:differs:other-public-half", "Public() does not return the second half of the private key as crypto/ed25519 does ("+name+")", d)
+				continue
+			}
+			c.Class("private_keys_with_other_public_half_agree")
+		}
 	}
 }
